@@ -8,6 +8,6 @@ def c15 (input implOut : Sexp) : Option Verdict := do
     | .list (.atom "fl" :: _) => handleFloats input implOut
     | .list (.atom "cfg" :: _) => handleConfig input implOut
     | _ => none)
-  pure { agree := Sexp.beq r.model implOut, holds := r.holds, cls := r.cls, model := r.model }
+  pure { agree := Sexp.beq (canonOut r.model) (canonOut implOut), holds := r.holds, cls := r.cls, model := r.model }
 
 def main : IO Unit := driverMain (respond c15)
